@@ -38,6 +38,7 @@ func TestReconnect(t *testing.T) {
 		reconnectTraces(t, h)
 		offlineBuffer(t, h)
 		offlineTimedOut(t, h)
+		reconnectRestart(t, h)
 	})
 }
 
@@ -472,6 +473,91 @@ func offlineTimedOut(t *testing.T, h *H) {
 				}
 				if fmt.Sprint(cbs) != "[timeout]" {
 					h.Violation("C15", "the timed-out offline emit's callback is not invoked exactly once with the timeout error", desc, fmt.Sprint(cbs))
+				}
+			}
+		}
+	}
+}
+
+// the application stops and restarts the socket (Disconnect, Connect) while a reconnection loop sleeps out its back-off delay and the
+// server stays down: the old loop ends, the new connection attempt fails and starts one fresh round - ReconnectionAttempts attempts
+// numbered 1..N, one reconnect_failed
+func reconnectRestart(t *testing.T, h *H) {
+	// real time: the sleeping loop holds connectMu, the restart queues on it, and a goroutine queued on a mutex stops a bubble's clock
+	for _, N := range []uint32{2, 3} {
+		for _, how := range []string{"socket.Disconnect+Connect", "manager.Close+Open"} {
+			for _, after := range []int{1, 2} {
+				if after > int(N)-1 {
+					continue
+				}
+				var mu sync.Mutex
+				var trace []string
+				restarted := false
+				func() {
+					r := newRig(nil)
+					r.server.OnConnection(func(s sio.ServerSocket) {})
+					jit := float32(0)
+					d := 300 * time.Millisecond
+					m := r.manager([]string{"polling"}, &sio.ManagerConfig{ReconnectionAttempts: N, ReconnectionDelay: &d, ReconnectionDelayMax: &d, RandomizationFactor: &jit})
+					rec := func(s string) {
+						mu.Lock()
+						if restarted {
+							trace = append(trace, s)
+						}
+						mu.Unlock()
+					}
+					sock := m.Socket("/", nil)
+					errs := 0
+					m.OnReconnectAttempt(func(k uint32) { rec(fmt.Sprintf("a%d", k)) })
+					m.OnReconnectFailed(func() { rec("f") })
+					m.OnReconnectError(func(error) {
+						mu.Lock()
+						errs++
+						fire := errs == after && !restarted
+						mu.Unlock()
+						if fire {
+							go func() {
+								time.Sleep(100 * time.Millisecond) // inside the next back-off delay (300 ms)
+								mu.Lock()
+								restarted = true
+								mu.Unlock()
+								if how == "manager.Close+Open" {
+									m.Close()
+									m.Open()
+								} else {
+									sock.Disconnect()
+									sock.Connect()
+								}
+							}()
+						}
+					})
+					sock.Connect()
+					time.Sleep(200 * time.Millisecond)
+					r.net.setRefuse(true)
+					r.net.cutAll()
+					time.Sleep(time.Duration(after+int(N)+3) * 300 * time.Millisecond)
+					mu.Lock()
+					restarted = false // the observation is over
+					mu.Unlock()
+					m.Close()
+					r.close()
+				}()
+				desc := fmt.Sprintf("server down for good, ReconnectionAttempts=%d, delay 300 ms (real time): %s 100 ms after reconnect_error #%d", N, how, after)
+				h.Eval()
+				h.NonTrivial(desc)
+				h.Dist("reconnect.restart")
+				var want []string
+				for k := uint32(1); k <= N; k++ {
+					want = append(want, fmt.Sprintf("a%d", k))
+				}
+				want = append(want, "f")
+				// the manager's event handlers run on goroutines of their own: the set is judged, not the order of the records
+				got := append([]string(nil), trace...)
+				sort.Strings(got)
+				sort.Strings(want)
+				if strings.Join(got, " ") != strings.Join(want, " ") {
+					h.Violation("C15", "the client does not give up after exactly ReconnectionAttempts failures with one reconnect_failed", desc,
+						fmt.Sprintf("after the restart: %v, expected %v", trace, want))
 				}
 			}
 		}
